@@ -434,7 +434,16 @@ class HtmlToAst(HTMLParser):
         """Parse the source string."""
         self.struct.clear()
         super().feed(source)
-        rest = self.rawdata
+        # html.parser stops for good at a "&#" that does not start a character
+        # reference, and on close the whole rest (tags included) is reported as data:
+        # such a "&#" is plain text, so step over it and resume
+        rest = ""
+        while rest != self.rawdata:
+            rest = self.rawdata
+            if rest.startswith("&#") and not self.cdata_elem:
+                self.handle_data("&#")
+                self.rawdata = rest[2:]
+            super().feed("")
         if (
             len(rest) == 2
             and rest[0] == "&"
